@@ -140,12 +140,19 @@ def scenario(ctx, rng, j):
                                 0xb1) if not (x & ~allowed & 0xff)])
     a_hex, f_hex = f'{allowed:02x}', f'{f:02x}'
     t = T0 + rng.randrange(0, 10**6)
+    # the smallest timestamps a verifier can supply (begin_ts >= 0)
+    small_t = rng.random() < 0.08
+    if small_t:
+        t = rng.choice((0, 0, 1, 2))
     # windows: all comfortably around t, except one link at a boundary
     edge_link = rng.randrange(n)
     edge = rng.choice(('b-1', 'b', 'b+1', 'e-1', 'e', 'e+1', 'none'))
+    if small_t:
+        edge = rng.choice(('b-1', 'b', 'e-1', 'none'))
     windows = []
     for i in range(n):
         b, e = t - rng.randrange(1, 5000), t + rng.randrange(1, 5000)
+        b = max(b, 0)
         if i == edge_link:
             if edge == 'b-1':
                 b = t + 1
@@ -171,6 +178,8 @@ def scenario(ctx, rng, j):
                                       windows[i][1], cans[i])
         certs.append(c.pack())
     now = rng.choice((t, t, t, t - 59, t - 60, t - 61, t + 100, t - 10**6))
+    if small_t:
+        now = rng.choice((t, t + 100, T0))
     chain_lock = t_.make_delegate_key_chain_lock(pks[0], a_hex)
     wit = t_.make_delegate_key_chain_witness(seeds[n], list(reversed(certs)),
                                              fields, f_hex)
